@@ -136,7 +136,7 @@ fn random_table(rng: &mut Rng) -> Cls {
 pub fn run(env: &Env) -> Rec {
     let mut rec = Rec::new();
     // (1) exhaustive labels over ALPHA for the two standard classes
-    let max_len = if env.quick() { 4 } else { 5 };
+    let max_len = if env.quick() { 5 } else { 6 };
     let k = ALPHA.len();
     let total = util::n_strings(k, max_len);
     let per = 4096usize;
@@ -152,8 +152,41 @@ pub fn run(env: &Env) -> Rec {
     rec.merge(r1);
     rec.exhaustive(format!("all labels up to length {} over a {}-symbol alphabet (every derived value, every contextual code point, enabling/disabling neighbours, 1-4 byte characters) x both standard classes", max_len, k));
 
+    // (1b) every Unicode scalar value: alone, after a letter, and next to the code points that share its
+    // low 16 bits (what a narrowed cache key or table index would confuse)
+    let chunk = 0x400usize;
+    let r1b = par(crate::ucd::NCP / chunk, |i, rec| {
+        let mut s = String::new();
+        for cp in (i * chunk) as u32..((i + 1) * chunk) as u32 {
+            let c = match char::from_u32(cp) {
+                Some(c) => c,
+                None => continue,
+            };
+            let mut labels: Vec<String> = vec![c.to_string(), format!("a{}", c)];
+            for k in 1..=2u32 {
+                if let Some(d) = char::from_u32(cp ^ (k << 16)) {
+                    labels.push(format!("{}{}", d, c));
+                    labels.push(format!("{}{}", c, d));
+                }
+            }
+            if let Some(d) = char::from_u32(cp & 0xFFFF) {
+                if d != c {
+                    labels.push(format!("{}x{}", d, c));
+                }
+            }
+            for l in &labels {
+                s.clear();
+                s.push_str(l);
+                check_label(env, &Cls::Std(Class::Identifier), &s, rec);
+                check_label(env, &Cls::Std(Class::Freeform), &s, rec);
+            }
+        }
+    });
+    rec.merge(r1b);
+    rec.exhaustive("every Unicode scalar value c as c, a c, and paired in both orders with c^0x10000, c^0x20000 and its low-16-bit alias, both standard classes");
+
     // (2) user-supplied table classes: random assignments x exhaustive short labels + random labels
-    let n_tables = env.n(300, 5000);
+    let n_tables = env.n(3000, 60_000);
     let tk = TALPHA.len();
     let tl = util::n_strings(tk, 3);
     let r2 = par(n_tables, |c, rec| {
@@ -179,7 +212,7 @@ pub fn run(env: &Env) -> Rec {
     rec.merge(r2);
 
     // (3) constructive contextual labels, single edits, random labels with the first offender at every position
-    let n_rand = env.n(120_000, 4_000_000);
+    let n_rand = env.n(1_500_000, 40_000_000);
     let per = 2000usize;
     let r3 = par(n_rand.div_ceil(per), |c, rec| {
         let mut rng = Rng::stream(env.seed, 0x02_8000 + c as u64);
@@ -221,6 +254,57 @@ pub fn run(env: &Env) -> Rec {
         }
     });
     rec.merge(r3);
+    // (3b) ZWNJ between runs of k and m transparent marks (k, m up to 70): acceptance must follow the rule
+    // however long the runs are
+    for k in 0..=70usize {
+        for m in [0usize, 1, 2, 29, 30, 31, 32, 33, 63, 64, 65, 70] {
+            for (left, right) in [('\u{628}', '\u{628}'), ('\u{628}', 'a'), ('a', '\u{627}'), ('\u{626}', '\u{626}')] {
+                let mut s = String::new();
+                s.push(left);
+                for _ in 0..k {
+                    s.push('\u{64E}');
+                }
+                s.push('\u{200C}');
+                for _ in 0..m {
+                    s.push('\u{64E}');
+                }
+                s.push(right);
+                check_label(env, &Cls::Std(Class::Identifier), &s, &mut rec);
+                check_label(env, &Cls::Std(Class::Freeform), &s, &mut rec);
+                let t: String = s.chars().rev().collect();
+                check_label(env, &Cls::Std(Class::Identifier), &t, &mut rec);
+            }
+        }
+    }
+    // (4) long labels: offender / contextual character at and around power-of-two byte offsets,
+    // same-length variants in one reused buffer
+    let n_long = env.n(20_000, 600_000);
+    let per = 200usize;
+    let r4 = par(n_long.div_ceil(per), |c, rec| {
+        let mut rng = Rng::stream(env.seed, 0x02_C000 + c as u64);
+        let p = env.pools();
+        super::hostile::drive(
+            &mut rng,
+            per,
+            65536,
+            |rng| match rng.below(4) {
+                0 => gen::contextual_label(p, rng),
+                1 => {
+                    let mut t = String::new();
+                    let k = *rng.pick(&[gen::Kind::Disallowed, gen::Kind::Unassigned, gen::Kind::Context, gen::Kind::Zs, gen::Kind::FreePval]);
+                    gen::push_kind(p, rng, k, &mut t);
+                    t
+                }
+                2 => gen::random_string(p, rng, gen::MIX_USERNAME, 4),
+                _ => String::new(),
+            },
+            |s| {
+                check_label(env, &Cls::Std(Class::Identifier), s, rec);
+                check_label(env, &Cls::Std(Class::Freeform), s, rec);
+            },
+        );
+    });
+    rec.merge(r4);
     rec
 }
 
